@@ -176,6 +176,23 @@ func (w *Worktree) PullContext(ctx context.Context, o *PullOptions) error {
 		return err
 	}
 
+	// The merge reset below refuses a worktree with unstaged changes; decide
+	// that before the branch is moved, so that a refused pull leaves HEAD's
+	// branch where it was.
+	cfg, err := w.r.Config()
+	if err != nil {
+		return err
+	}
+
+	unstaged, err := w.containsUnstagedChanges(cfg)
+	if err != nil {
+		return err
+	}
+
+	if unstaged {
+		return ErrUnstagedChanges
+	}
+
 	if err := w.updateHEAD(ref.Hash()); err != nil {
 		return err
 	}
